@@ -28,6 +28,14 @@ Proof.
   rewrite (H lo) by lia. rewrite IH; [lia|]. intros m Hm. apply H. lia.
 Qed.
 
+Lemma missing_none : forall st n lo,
+  (forall m, lo <= m < lo + Z.of_nat n -> st m <> None) -> missing st lo n = 0.
+Proof.
+  intros st n. induction n as [|k IH]; intros lo H; cbn [missing]; [reflexivity|].
+  destruct (st lo) eqn:E; [|exfalso; apply (H lo); [lia|exact E]].
+  rewrite IH; [lia|]. intros m Hm. apply H. lia.
+Qed.
+
 Lemma missing_le_len : forall st n lo, missing st lo n <= Z.of_nat n.
 Proof.
   intros st n. induction n as [|k IH]; intros lo; cbn [missing]; [lia|].
